@@ -92,6 +92,8 @@ func genKeys() []*keyT {
 	add("p384", k384, &k384.PublicKey, pemOf("PRIVATE KEY", must(x509.MarshalPKCS8PrivateKey(k384))))
 	k8 := must(ecdsa.GenerateKey(elliptic.P256(), crand.Reader)) // 8: registered for c-beta2
 	add("p256", k8, &k8.PublicKey, pemOf("PRIVATE KEY", must(x509.MarshalPKCS8PrivateKey(k8))))
+	k9 := must(ecdsa.GenerateKey(elliptic.P256(), crand.Reader)) // 9: registered for C-ALPHA
+	add("p256", k9, &k9.PublicKey, pemOf("PRIVATE KEY", must(x509.MarshalPKCS8PrivateKey(k9))))
 	return ks
 }
 
@@ -99,7 +101,35 @@ func genKeys() []*keyT {
 // case, whitespace): what a weakened comparison (prefix / case-insensitive / trimmed)
 // would still accept.
 func nearMiss(r drv.Rand, s string) string {
-	switch r.IntN(10) {
+	switch r.IntN(16) {
+	case 10: // other white space than a blank, before or behind
+		ws := drv.Pick(r, []string{"\t", "\n", "\r", "\r\n", "\u00a0"})
+		if r.Bool() {
+			return ws + s
+		}
+		return s + ws
+	case 11: // what a second round of URL decoding would turn into the value / into value + blank
+		return s + drv.Pick(r, []string{"%20", "+", "%09", "%0A", "%00", "%2F"})
+	case 12: // Unicode simple case folding: U+017F (long s) folds to s, U+212A (Kelvin sign) to k
+		if i := strings.IndexAny(s, "sSkK"); i >= 0 {
+			rep := "\u017f"
+			if s[i] == 'k' || s[i] == 'K' {
+				rep = "\u212a"
+			}
+			return s[:i] + rep + s[i+1:]
+		}
+		return strings.ToUpper(s[:1]) + s[1:]
+	case 13: // one letter in the middle in the other case
+		for i := len(s) / 2; i < len(s); i++ {
+			if c := s[i]; c >= 'a' && c <= 'z' {
+				return s[:i] + string(c-32) + s[i+1:]
+			}
+		}
+		return s + "A"
+	case 14: // a NUL / something behind a NUL
+		return s + drv.Pick(r, []string{"\x00", "\x00x"})
+	case 15: // trailing dot / doubled slash / trailing '?' or '#'
+		return s + drv.Pick(r, []string{".", "//", "?", "#", "/."})
 	case 0:
 		return s + "0"
 	case 1:
@@ -333,6 +363,10 @@ func signCompact(k *keyT, alg jose.SignatureAlgorithm, kid string, payload []byt
 	return o.CompactSerialize()
 }
 
+// lastUntampered is the token of the last build as it left the signer (before any tampering):
+// presented FIRST, it primes whatever the implementation may remember per signature / payload.
+var lastUntampered string
+
 type tokPlan struct {
 	kind    string // jws | empty | shape | json
 	key     *keyT
@@ -365,6 +399,7 @@ func (p tokPlan) build(r drv.Rand, payload, payload2 []byte) (string, sigDesc, e
 	if err != nil {
 		return "", sigDesc{}, err
 	}
+	lastUntampered = t
 	d := sigDesc{true, string(p.alg), p.kid, p.key.id, true}
 	parts := strings.Split(t, ".")
 	switch p.sigMut {
@@ -399,7 +434,11 @@ func malformed(r drv.Rand, kind string, good string) string {
 	switch kind {
 	case "shape": // ParseToken answers ErrParse: segment count, base64, or payload not a JSON object
 		mid := func(p string) string { return parts[0] + "." + b64([]byte(p)) + "." + parts[2] }
-		switch r.IntN(10) {
+		switch r.IntN(12) {
+		case 10: // keyword-like literals instead of a token
+			return drv.Pick(r, []string{"null", "undefined", "nil", "true", "false", "0", "[]", "{}", "NULL", " ", "."})
+		case 11: // a JWS in JSON serialisation is not a compact token
+			return `{"protected":"` + parts[0] + `","payload":"` + parts[1] + `","signature":"` + parts[2] + `"}`
 		case 0:
 			return parts[0] + "." + parts[1]
 		case 1:
@@ -463,9 +502,10 @@ func baseWorld(keys []*keyT) world {
 			{"c-gamma", "g1", keys[6]}, {"c-gamma", "g2", keys[7]},
 			{"c-delta", "", keys[3]},
 			{"c-beta2", "b1", keys[8]}, // id extends "c-beta", same kid, different key
+			{"C-ALPHA", "a1", keys[9]}, // id differs from "c-alpha" by case only, same kid, different key
 		},
 		clients: [][2]string{{"c-alpha", "private_key_jwt"}, {"c-beta", "private_key_jwt"},
-			{"c-gamma", "client_secret_basic"}, {"c-delta", "none"}, {"c-beta2", "private_key_jwt"}},
+			{"c-gamma", "client_secret_basic"}, {"c-delta", "none"}, {"c-beta2", "private_key_jwt"}, {"C-ALPHA", "private_key_jwt"}},
 	}
 }
 
@@ -492,7 +532,7 @@ func main() {
 	cfg := drv.Parse()
 	r := drv.NewRand(cfg.Seed)
 	w := emit.NewWriter(cfg.Out, "C14_spec", 0, cfg.Only)
-	n := cfg.Count(460, 9000)
+	n := cfg.Count(640, 9000)
 	keys := genKeys()
 	extra := map[string]any{"clock_ambiguous": 0, "helper_sign_failed": 0}
 	bump := func(k string) { extra[k] = extra[k].(int) + 1 }
@@ -508,11 +548,14 @@ func main() {
 			assertionCase(r, w, baseWorld(keys), bump)
 		}
 	}
+	helperSweep(r, w, baseWorld(keys), bump)
 	err := w.Close(emit.Meta{Property: "C14", Tier: cfg.Tier, Seed: cfg.Seed,
 		Rule: "flow-first: a valid assertion / request object for a registered client (distinct keys per client: RSA, P-256, P-384, Ed25519) " +
 			"plus 0-2 mutations out of {iss, sub, aud, iat/exp at the boundaries of offset and max age, kid, alg, signer = other client's / unknown key, " +
 			"tampered header/payload/signature, alg none / HS256, malformed}; entries VerifyJWTAssertion, ClientJWTAuth, AuthorizePrivateJWTKey, JWTProfile handler, " +
-			"ParseRequestObject, Authorize (stub AuthorizeValidator); helper-built assertions via client.SignedJWTProfileAssertion and oidc.GenerateJWTProfileToken. " +
+			"ParseRequestObject, Authorize (stub AuthorizeValidator), the real routers; helper-built assertions: every client helper path that builds (and sends) an assertion, " +
+			"as long-lived instances called repeatedly during the run and once more >= 2.6 s after their first call, each call's assertion captured at the wire and " +
+			"presented to verifiers with max age 0 / 2 s ... 2 h. " +
 			"Non-trivial = model path class != 0 (token got past the shape check); distinct = distinct (input hash, path class).",
 		Extra: extra,
 	})
@@ -549,16 +592,22 @@ var routerHosts = []string{"op-a.example.com", "op-b.example.com", "op-a.example
 
 type routerCall struct {
 	legacy bool
+	ep     string // device | code | refresh | revoke | introspect | bearer
 	cid    string // plain client_id form parameter sent along with the assertion
+	owner  string // client the redeemed code / refresh token / token belongs to
 	host   string
 }
 
+var epCtor = map[string]string{"device": "EpDevice", "code": "EpCode", "refresh": "EpRefresh", "revoke": "EpRevoke", "introspect": "EpIntrospect", "bearer": "EpBearer"}
+var routerEps = []string{"device", "device", "code", "code", "refresh", "refresh", "revoke", "revoke", "introspect", "introspect", "bearer", "bearer"}
+
 func (c routerCall) term() string {
-	return emit.Ctor("ERouter", emit.Bool(c.legacy), emit.Str(c.cid))
+	return emit.Ctor("ERouter", emit.Bool(c.legacy), epCtor[c.ep], emit.Str(c.cid), emit.Str(c.owner))
 }
 
 var routerFx *opfix.Fixture
 var rcall routerCall // the router call of the current case (entry == "ERouter")
+var routerSeq int    // numbers the codes / tokens planted into the router's storage
 
 func newRouterFixture(wd world) *opfix.Fixture {
 	s := refstore.New(opfix.DefaultSigning())
@@ -582,33 +631,119 @@ func syncRouterKeys(f *opfix.Fixture, regs []reg) {
 	}
 }
 
-// routerDeviceAuth presents the assertion as client authentication of a device
-// authorization request on the real router; identity = the client the storage
-// recorded the device authorization for.
-func routerDeviceAuth(c routerCall, tok string) (id string, err error) {
-	form := url.Values{"scope": {"openid"}, "client_assertion": {tok}, "client_assertion_type": {oidc.ClientAssertionTypeJWTAssertion}}
+// routerRequest presents the assertion to one endpoint of the real router: as client
+// authentication of a device authorization request, a code exchange, a refresh, a
+// revocation or an introspection (what is redeemed / revoked / read is planted into the
+// storage for client c.owner beforehand), or as the jwt-bearer grant. identity = the client
+// the storage recorded the device authorization / the new token for (jwt-bearer: its
+// subject), resp. the owner when the storage really revoked / disclosed the token.
+func routerRequest(c routerCall, tok string) (id string, err error) {
+	ctx := context.Background()
+	st := routerFx.Store
+	routerSeq++
+	form := url.Values{"client_assertion": {tok}, "client_assertion_type": {oidc.ClientAssertionTypeJWTAssertion}}
 	if c.cid != "" {
 		form.Set("client_id", c.cid)
 	}
-	req := httptest.NewRequest(http.MethodPost, "https://"+c.host+"/device_authorization", strings.NewReader(form.Encode()))
+	path := "/oauth/token"
+	var planted, plantedReq string
+	switch c.ep {
+	case "device":
+		path = "/device_authorization"
+		form.Set("scope", "openid")
+	case "code":
+		ar, e := st.CreateAuthRequest(ctx, &oidc.AuthRequest{ClientID: c.owner, RedirectURI: "https://rp.example.com/cb", Scopes: []string{"openid"},
+			ResponseType: oidc.ResponseTypeCode, State: "st"}, "")
+		if e != nil {
+			return "", e
+		}
+		st.Login(ar.GetID(), "alice")
+		plantedReq = ar.GetID()
+		planted = fmt.Sprintf("c14-code-%d", routerSeq)
+		if e := st.SaveAuthCode(ctx, ar.GetID(), planted); e != nil {
+			return "", e
+		}
+		form.Set("grant_type", string(oidc.GrantTypeCode))
+		form.Set("code", planted)
+		form.Set("redirect_uri", "https://rp.example.com/cb")
+	case "refresh", "revoke":
+		planted = fmt.Sprintf("c14-rt-%d", routerSeq)
+		st.Refresh[planted] = &refstore.RefreshToken{ID: planted, ClientID: c.owner, Subject: "alice", Audience: []string{c.owner},
+			Scopes: []string{"openid", "offline_access"}, AMR: []string{"pwd"}, AuthTime: time.Now().Add(-time.Minute), Expiration: time.Now().Add(time.Hour)}
+		if c.ep == "refresh" {
+			form.Set("grant_type", string(oidc.GrantTypeRefreshToken))
+			form.Set("refresh_token", planted)
+		} else {
+			path = "/revoke"
+			form.Set("token", planted)
+			form.Set("token_type_hint", "refresh_token")
+		}
+	case "introspect":
+		path = "/oauth/introspect"
+		planted = fmt.Sprintf("c14-at-%d", routerSeq)
+		st.Tokens[planted] = &refstore.Token{ID: planted, ClientID: "c-alpha", Subject: "alice", Audience: []string{c.owner}, Scopes: []string{"openid"},
+			Expiration: time.Now().Add(time.Hour)}
+		bearer, e := op.CreateBearerToken(planted, "alice", routerFx.Provider.Crypto())
+		if e != nil {
+			return "", e
+		}
+		form.Set("token", bearer)
+	case "bearer":
+		form = url.Values{"grant_type": {string(oidc.GrantTypeBearer)}, "assertion": {tok}, "scope": {"openid"}}
+		if c.cid != "" {
+			form.Set("client_id", c.cid)
+		}
+	}
+	req := httptest.NewRequest(http.MethodPost, "https://"+c.host+path, strings.NewReader(form.Encode()))
 	req.Header.Set("Content-Type", "application/x-www-form-urlencoded")
 	rt := opfix.Provider
 	if c.legacy {
 		rt = opfix.Legacy
 	}
 	resp := opfix.Do(routerFx.Handlers[rt], req)
+	defer func() { // what was planted does not outlive the request
+		delete(st.Refresh, planted)
+		delete(st.Tokens, planted)
+		delete(st.Codes, planted)
+		delete(st.AuthReqs, plantedReq)
+	}()
 	if resp.Panic != "" {
 		panic(resp.Panic)
 	}
-	dc := resp.Str("device_code")
-	if resp.Status != http.StatusOK || dc == "" {
-		return "", fmt.Errorf("router answered %d %s", resp.Status, resp.OAuthError())
+	fail := func() (string, error) { return "", fmt.Errorf("router answered %d %s", resp.Status, resp.OAuthError()) }
+	if resp.Status != http.StatusOK {
+		return fail()
 	}
-	d := routerFx.Store.Devices[dc]
-	if d == nil || d.State == nil {
-		return "", errors.New("device authorization not stored")
+	switch c.ep {
+	case "device":
+		d := st.Devices[resp.Str("device_code")]
+		if d == nil || d.State == nil {
+			return fail()
+		}
+		return d.State.ClientID, nil
+	case "code", "refresh", "bearer":
+		tid, ok := routerFx.OpenBearer(resp.Str("access_token")) // "<token id>:<subject>"
+		tid, _, _ = strings.Cut(tid, ":")
+		t := st.Tokens[tid]
+		if !ok || t == nil {
+			return fail()
+		}
+		if c.ep == "bearer" {
+			return t.Subject, nil
+		}
+		return t.ClientID, nil
+	case "revoke":
+		if _, still := st.Refresh[planted]; still {
+			return "", errors.New("answered 200 but nothing was revoked")
+		}
+		return c.owner, nil
+	case "introspect":
+		if active, _ := resp.JSON["active"].(bool); !active {
+			return "", errors.New("token not disclosed")
+		}
+		return c.owner, nil
 	}
-	return d.State.ClientID, nil
+	return fail()
 }
 
 func pickRouterCall(r drv.Rand, named string) routerCall {
@@ -618,7 +753,46 @@ func pickRouterCall(r drv.Rand, named string) routerCall {
 	}
 	// two-identity presentations: the form names another (registered) client than the assertion
 	cid := drv.Pick(r, []string{"", "", named, other, other, "c-beta2", "c-gamma", "c-delta", "c-unknown"})
-	return routerCall{legacy: r.Bool(), cid: cid, host: drv.Pick(r, routerHosts)}
+	c := routerCall{legacy: r.Bool(), ep: drv.Pick(r, routerEps), cid: cid, host: drv.Pick(r, routerHosts)}
+	switch c.ep {
+	case "code", "refresh", "revoke", "introspect": // mostly its own; sometimes what belongs to another client
+		c.owner = drv.Pick(r, []string{named, named, named, named, named, named, other, "c-beta2", "C-ALPHA", "c-delta"})
+		if c.cid != "" && r.Chance(1, 4) {
+			c.owner = c.cid // ... to the very client the plain client_id parameter names
+			if c.cid == "c-unknown" {
+				c.owner = other
+			}
+		}
+	}
+	return c
+}
+
+// cyclePlan walks systematically over router x endpoint x client_id class, so that every
+// quick run has, in each of the twelve (router, endpoint) cells, a fully valid presentation
+// ("base": the assertion's client redeems its own) and a two-identity one ("cross": a valid
+// assertion of one private_key_jwt client, while the code / token / client_id parameter
+// belong to another).
+var cycleIdx = map[string]int{}
+
+func cycleRouterCall(r drv.Rand, mode, named string) routerCall {
+	other := "c-beta"
+	if named == "c-beta" {
+		other = "c-alpha"
+	}
+	eps := []string{"device", "code", "refresh", "revoke", "introspect", "bearer"}
+	k := cycleIdx[mode]
+	cycleIdx[mode]++
+	c := routerCall{legacy: k%2 == 1, ep: eps[(k/2)%6], host: drv.Pick(r, routerHosts)}
+	c.cid = []string{other, "", named}[(k/12)%3]
+	if c.ep != "device" && c.ep != "bearer" {
+		c.owner = named
+		if mode == "cross" {
+			c.owner = other
+		}
+	} else if mode == "cross" {
+		c.cid = other
+	}
+	return c
 }
 
 func cidClass(cid, named string) string {
@@ -669,7 +843,7 @@ func runAssertion(entry, tok string, st *store, v *op.JWTProfileVerifier) (obs s
 				err = errors.New("handler answered without reaching the storage")
 			}
 		case "ERouter":
-			id, err = routerDeviceAuth(rcall, tok)
+			id, err = routerRequest(rcall, tok)
 		}
 	})
 	t1 = time.Now().UnixNano()
@@ -729,17 +903,19 @@ func newVerifier(st *store, issuer string, vs vset, custom, keySetCtor bool) *op
 	return op.NewJWTProfileVerifier(st, issuer, vs.maxAge, vs.offset, opts...)
 }
 
-func claimsJSON(c claimsD, audString bool, r drv.Rand) []byte {
+// omitEmpty: an empty claim is left out of the JSON (otherwise it is sent empty half of the time)
+func claimsJSON(c claimsD, audString bool, r drv.Rand, omitEmpty bool) []byte {
 	m := map[string]any{}
-	if c.iss != "" || r.Bool() {
+	empty := func() bool { return !omitEmpty && r.Bool() }
+	if c.iss != "" || empty() {
 		m["iss"] = c.iss
 	}
-	if c.sub != "" || r.Bool() {
+	if c.sub != "" || empty() {
 		m["sub"] = c.sub
 	}
 	if audString && len(c.aud) == 1 {
 		m["aud"] = c.aud[0]
-	} else if len(c.aud) > 0 || r.Bool() {
+	} else if len(c.aud) > 0 || empty() {
 		m["aud"] = c.aud
 	}
 	if c.iat != 0 {
@@ -761,11 +937,19 @@ func assertionCase(r drv.Rand, w *emit.Writer, wd world, bump func(string)) {
 	custom := r.Chance(1, 7)
 	named := drv.Pick(r, []string{"c-alpha", "c-alpha", "c-beta", "c-beta", "c-gamma", "c-delta"})
 	entryTerm := entry
-	router := r.Chance(3, 10)
+	router := r.Chance(9, 20)
 	otherTenant := ""
+	cycle := ""
+	if router && r.Chance(4, 10) {
+		cycle = drv.Pick(r, []string{"base", "cross"})
+		named = drv.Pick(r, []string{"c-alpha", "c-beta"})
+	}
 	if router { // the real routers of the one dynamic-issuer provider
 		entry = "ERouter"
 		rcall = pickRouterCall(r, named)
+		if cycle != "" {
+			rcall = cycleRouterCall(r, cycle, named)
+		}
 		entryTerm = rcall.term()
 		issuer, vs, custom = "https://"+rcall.host, vset{time.Hour, time.Second}, false
 		otherTenant = "https://" + drv.Pick(r, routerHosts)
@@ -774,7 +958,7 @@ func assertionCase(r drv.Rand, w *emit.Writer, wd world, bump func(string)) {
 	plan := tokPlan{kind: "jws", key: own.key, kid: own.kid, alg: drv.Pick(r, naturalAlgs(own.key.kind))}
 	tags := []string{"kind=assertion", "entry=" + entry, "helper=0"}
 	if router {
-		tags = append(tags, fmt.Sprintf("router_legacy=%v", rcall.legacy), "client_id_param="+cidClass(rcall.cid, named))
+		tags = append(tags, fmt.Sprintf("router_legacy=%v", rcall.legacy), "router_ep="+rcall.ep, "client_id_param="+cidClass(rcall.cid, named), "owner="+cidClass(rcall.owner, named))
 	}
 	nowS := time.Now().Unix()
 	offS, maxS := int64(vs.offset/time.Second), int64(vs.maxAge/time.Second)
@@ -784,15 +968,28 @@ func assertionCase(r drv.Rand, w *emit.Writer, wd world, bump func(string)) {
 	muts := []string{}
 	nm := []int{0, 0, 0, 0, 1, 1, 1, 1, 2, 2}[r.IntN(10)]
 	near := r.Chance(3, 10) // exactly one near-miss string, everything else valid
+	if router { // twelve (router, endpoint) cells: more of them have to get past the assertion checks
+		nm = []int{0, 0, 0, 0, 0, 0, 1, 1, 1, 2}[r.IntN(10)]
+		near = r.Chance(2, 10)
+	}
 	if near {
 		nm = 1
 	}
-	crossTenant := router && !near && otherTenant != issuer && r.Chance(1, 3)
+	if cycle != "" {
+		nm, near = 0, false
+	}
+	if cycle == "" {
+		tags = append(tags, "cycle=none")
+	} else {
+		tags = append(tags, "cycle="+cycle)
+	}
+	omitEmpty := false
+	crossTenant := router && cycle == "" && !near && otherTenant != issuer && r.Chance(1, 3)
 	if crossTenant { // addressed to another tenant (request issuer) of the same provider, otherwise valid
 		nm = 1
 	}
 	for k := 0; k < nm; k++ {
-		m := drv.Pick(r, []string{"iss", "sub", "aud", "iat", "iat", "exp", "exp", "kid", "alg", "signer", "signer", "tamper", "unregister", "malformed"})
+		m := drv.Pick(r, []string{"iss", "sub", "aud", "iat", "iat", "exp", "exp", "kid", "alg", "signer", "signer", "tamper", "tamper", "unregister", "malformed", "absent"})
 		if near {
 			m = drv.Pick(r, []string{"near_aud", "near_aud", "near_aud", "near_sub", "near_sub", "near_iss", "near_kid"})
 		}
@@ -801,6 +998,22 @@ func assertionCase(r drv.Rand, w *emit.Writer, wd world, bump func(string)) {
 		}
 		muts = append(muts, m)
 		switch m {
+		case "absent": // a claim the previous requests on this verifier / provider carried is left out entirely
+			omitEmpty = true
+			switch r.IntN(6) {
+			case 0:
+				c.iss = ""
+			case 1:
+				c.sub = ""
+			case 2:
+				c.aud = nil
+			case 3:
+				c.iat = 0
+			case 4:
+				c.exp = 0
+			default:
+				c.iss, c.sub = "", ""
+			}
 		case "cross_tenant":
 			c.aud = []string{otherTenant}
 		case "near_aud":
@@ -816,20 +1029,24 @@ func assertionCase(r drv.Rand, w *emit.Writer, wd world, bump func(string)) {
 			if named == "c-beta" && r.Bool() {
 				c.iss = "c-beta2" // registered, same kid b1, other key
 			}
+			if named == "c-alpha" && r.Chance(1, 3) {
+				c.iss = "C-ALPHA" // registered, same kid a1, other key
+			}
 			if r.Bool() {
 				c.sub = c.iss
 			}
 		case "near_kid":
 			plan.kid = nearMiss(r, own.kid)
 		case "iss":
-			c.iss = drv.Pick(r, []string{"c-beta", "c-alpha", "c-unknown", "", "c-alpha "})
+			c.iss = drv.Pick(r, []string{"c-beta", "c-alpha", "c-unknown", "", "c-alpha ", "null", "undefined", "nil", "0", "true", "false", "[]", "{}", "NULL"})
 			if r.Bool() {
 				c.sub = c.iss
 			}
 		case "sub":
-			c.sub = drv.Pick(r, []string{"c-beta", "someone", "", "C-ALPHA"})
+			c.sub = drv.Pick(r, []string{"c-beta", "someone", "", "C-ALPHA", "null", "undefined", "0", "true", "*"})
 		case "aud":
-			c.aud = drv.Pick(r, [][]string{{}, {"https://other.example.com"}, {"https://other.example.com", issuer}, {issuer + "/"}, {"c-alpha"}, {strings.ToUpper(issuer)}})
+			c.aud = drv.Pick(r, [][]string{{}, {"https://other.example.com"}, {"https://other.example.com", issuer}, {issuer + "/"}, {"c-alpha"}, {strings.ToUpper(issuer)},
+				{"null"}, {"*"}, {"true"}, {""}, {"", named}})
 		case "iat":
 			d := drv.Pick(r, []int64{offS - 1, offS, offS + 1, offS + 2, 3600, -maxS + 1, -maxS, -maxS - 1, -maxS - 2, -maxS + 2, -7200, 0})
 			c.iat = nowS + d
@@ -843,7 +1060,7 @@ func assertionCase(r drv.Rand, w *emit.Writer, wd world, bump func(string)) {
 				c.exp = 0
 			}
 		case "kid":
-			plan.kid = drv.Pick(r, []string{"a1", "b1", "a2", "g1", "", "nope"})
+			plan.kid = drv.Pick(r, []string{"a1", "b1", "a2", "g1", "", "nope", "null", "undefined", "0", "false", "[]"})
 		case "alg":
 			switch plan.key.kind {
 			case "rsa":
@@ -882,17 +1099,22 @@ func assertionCase(r drv.Rand, w *emit.Writer, wd world, bump func(string)) {
 	}
 	tags = append(tags, "keytype="+plan.key.kind, fmt.Sprintf("nmut=%d", nm))
 
-	payload := claimsJSON(c, audString, r)
+	payload := claimsJSON(c, audString, r, omitEmpty)
 	signed := c
 	if plan.sigMut == "payload" { // what was signed differs from what is presented
-		signed.sub = "someone-else"
+		if r.Bool() {
+			signed.sub = "someone-else"
+		}
 		signed.exp = c.exp + 1
 	}
 	signedPayload := payload
 	if plan.sigMut == "payload" {
-		signedPayload = claimsJSON(signed, audString, r)
+		signedPayload = claimsJSON(signed, audString, r, omitEmpty)
 	}
 	tok, d, err := plan.build(r, signedPayload, payload)
+	// a tampered token is preceded, half of the time, by the token as it was signed (same signature bytes)
+	primed := plan.kind == "jws" && (plan.sigMut == "payload" || plan.sigMut == "sigflip" || plan.sigMut == "hdralg") && r.Chance(2, 3)
+	primeTok := lastUntampered
 	if err != nil { // e.g. alg/key combination go-jose refuses to sign with
 		bump("helper_sign_failed")
 		return
@@ -914,6 +1136,10 @@ func assertionCase(r drv.Rand, w *emit.Writer, wd world, bump func(string)) {
 	if router {
 		syncRouterKeys(routerFx, regs)
 	}
+	tags = append(tags, fmt.Sprintf("primed=%v", primed))
+	if primed {
+		runAssertion(entry, primeTok, st, v)
+	}
 	var obs string
 	var t0, t1 int64
 	for try := 0; ; try++ {
@@ -926,7 +1152,7 @@ func assertionCase(r drv.Rand, w *emit.Writer, wd world, bump func(string)) {
 			return
 		}
 	}
-	in := emit.Ctor("IAssert", entryTerm, "false", vTerm(issuer, vs, custom, keySetCtor), regsTerm(regs), clientsTerm(wd.clients), emit.Z(t0), emit.Z(t1), tokTerm)
+	in := emit.Ctor("IAssert", entryTerm, emit.None, vTerm(issuer, vs, custom, keySetCtor), regsTerm(regs), clientsTerm(wd.clients), emit.Z(t0), emit.Z(t1), tokTerm)
 	w.Add(emit.Case{Input: in, Observed: obs, Tags: tags,
 		Human: map[string]any{"entry": entryTerm, "token": tok, "issuer": issuer, "max_age": vs.maxAge.String(), "offset": vs.offset.String(),
 			"custom_subject_check": custom, "claims": fmt.Sprintf("%+v", c), "sig": fmt.Sprintf("%+v", d), "mutations": muts}})
@@ -937,7 +1163,8 @@ func assertionCase(r drv.Rand, w *emit.Writer, wd world, bump func(string)) {
 // by an in-process RoundTripper (which also serves the discovery document) and the
 // assertion is taken from the captured form.
 
-var helperPaths = []string{"SignedJWTProfileAssertion", "GenerateJWTProfileToken", "profile.TokenSource", "profile.TokenSource.discover",
+var helperPaths = []string{"SignedJWTProfileAssertion", "GenerateJWTProfileToken", "AssertionStringFromFileData",
+	"profile.TokenSource", "profile.TokenSource.discover", "profile.TokenSource.keyfiledata", "profile.TokenSource.keyfile",
 	"tokenexchange.JWTProfile", "rs.Introspect", "rp.DeviceAuthorization", "rp.CodeExchangeHandler", "rp.CodeExchangeHandler"}
 
 type capTransport struct {
@@ -965,8 +1192,10 @@ func (c *capTransport) RoundTrip(req *http.Request) (*http.Response, error) {
 	return mk(400, `{"error":"invalid_request"}`), nil
 }
 
-func (c *capTransport) assertion() (string, error) {
-	for i := len(c.forms) - 1; i >= 0; i-- {
+// assertionSince returns the assertion of the last form captured after the first `from` ones:
+// what THIS call put on the wire, never what an earlier call on the same instance sent.
+func (c *capTransport) assertionSince(from int) (string, error) {
+	for i := len(c.forms) - 1; i >= from; i-- {
 		if a := c.forms[i].Get("client_assertion"); a != "" {
 			return a, nil
 		}
@@ -977,102 +1206,273 @@ func (c *capTransport) assertion() (string, error) {
 	return "", errors.New("the helper sent no assertion")
 }
 
-func sentAssertion(which, issuer, clientID, kid string, pemKey []byte) (string, error) {
+// ---- long-lived helper instances: a token source, signer, token exchanger, resource
+// server or relying party is built ONCE and then called again and again during the run
+// (and once more at the end, seconds after its first call); each call's assertion is
+// captured separately.
+
+type cand struct {
+	client, kid string
+	key         *keyT
+}
+
+type helperInst struct {
+	path   string
+	cd     cand
+	issuer string
+	aud    []string // nil: the helper derives the audience from its issuer
+	call   func(n int) (string, error)
+	calls  int
+	first  time.Time // start of the first call
+}
+
+var helperPool []*helperInst
+var helperCreated int
+
+func keyFileJSON(cd cand) []byte {
+	return must(json.Marshal(map[string]string{"type": "serviceaccount", "keyId": cd.kid, "key": string(cd.key.pem), "userId": cd.client}))
+}
+
+// newHelperInst builds the long-lived object of one helper path (discovery, if any, happens here).
+func newHelperInst(which, issuer string, aud []string, cd cand) (*helperInst, error) {
 	ctx, cancel := context.WithTimeout(context.Background(), 5*time.Second)
-	defer cancel()
+	defer cancel() // "the passed context is only used for the call to the Discover endpoint"
 	ct := &capTransport{issuer: issuer}
 	hc := &http.Client{Transport: ct, Timeout: 5 * time.Second}
 	tokenURL := issuer + "/oauth/token"
+	in := &helperInst{path: which, cd: cd, issuer: issuer}
+	callCtx := func() (context.Context, context.CancelFunc) { return context.WithTimeout(context.Background(), 5*time.Second) }
+	sent := func(do func(ctx context.Context)) (string, error) {
+		from := len(ct.forms)
+		c, cancel := callCtx()
+		defer cancel()
+		do(c)
+		return ct.assertionSince(from)
+	}
 	switch which {
-	case "profile.TokenSource", "profile.TokenSource.discover":
+	case "SignedJWTProfileAssertion": // the instance is the jose.Signer
+		signer, err := client.NewSignerFromPrivateKeyByte(cd.key.pem, cd.kid)
+		if err != nil {
+			return nil, err
+		}
+		in.aud = aud
+		in.call = func(int) (string, error) { return client.SignedJWTProfileAssertion(cd.client, aud, time.Hour, signer) }
+	case "GenerateJWTProfileToken": // one-shot helpers: nothing lives between two calls
+		in.aud = aud
+		in.call = func(int) (string, error) {
+			return oidc.GenerateJWTProfileToken(oidc.NewJWTProfileAssertion(cd.client, cd.kid, aud, cd.key.pem))
+		}
+	case "AssertionStringFromFileData":
+		in.aud = aud
+		data := keyFileJSON(cd)
+		in.call = func(int) (string, error) { return oidc.NewJWTProfileAssertionStringFromFileData(data, aud) }
+	case "profile.TokenSource", "profile.TokenSource.discover", "profile.TokenSource.keyfiledata", "profile.TokenSource.keyfile":
 		var ts profile.TokenSource
 		var err error
-		if which == "profile.TokenSource" {
-			ts, err = profile.NewJWTProfileTokenSource(ctx, issuer, clientID, kid, pemKey, []string{"openid"},
+		switch which {
+		case "profile.TokenSource":
+			ts, err = profile.NewJWTProfileTokenSource(ctx, issuer, cd.client, cd.kid, cd.key.pem, []string{"openid"},
 				profile.WithHTTPClient(hc), profile.WithStaticTokenEndpoint(issuer, tokenURL))
-		} else {
-			ts, err = profile.NewJWTProfileTokenSource(ctx, issuer, clientID, kid, pemKey, []string{"openid"}, profile.WithHTTPClient(hc))
+		case "profile.TokenSource.discover":
+			ts, err = profile.NewJWTProfileTokenSource(ctx, issuer, cd.client, cd.kid, cd.key.pem, []string{"openid"}, profile.WithHTTPClient(hc))
+		case "profile.TokenSource.keyfiledata":
+			ts, err = profile.NewJWTProfileTokenSourceFromKeyFileData(ctx, issuer, keyFileJSON(cd), []string{"openid"},
+				profile.WithHTTPClient(hc), profile.WithStaticTokenEndpoint(issuer, tokenURL))
+		default:
+			var f *os.File
+			if f, err = os.CreateTemp("", "c14-keyfile-*.json"); err == nil {
+				_, _ = f.Write(keyFileJSON(cd))
+				_ = f.Close()
+				ts, err = profile.NewJWTProfileTokenSourceFromKeyFile(ctx, issuer, f.Name(), []string{"openid"}, profile.WithHTTPClient(hc))
+				_ = os.Remove(f.Name())
+			}
 		}
 		if err != nil {
-			return "", err
+			return nil, err
 		}
-		_, _ = ts.TokenCtx(ctx)
+		in.call = func(n int) (string, error) {
+			return sent(func(c context.Context) {
+				if n%2 == 1 {
+					_, _ = ts.Token()
+				} else {
+					_, _ = ts.TokenCtx(c)
+				}
+			})
+		}
 	case "tokenexchange.JWTProfile":
-		signer, err := client.NewSignerFromPrivateKeyByte(pemKey, kid)
+		signer, err := client.NewSignerFromPrivateKeyByte(cd.key.pem, cd.kid)
 		if err != nil {
-			return "", err
+			return nil, err
 		}
-		te, err := tokenexchange.NewTokenExchangerJWTProfile(ctx, issuer, clientID, signer, tokenexchange.WithHTTPClient(hc))
+		te, err := tokenexchange.NewTokenExchangerJWTProfile(ctx, issuer, cd.client, signer, tokenexchange.WithHTTPClient(hc))
 		if err != nil {
-			return "", err
+			return nil, err
 		}
-		_, _ = tokenexchange.ExchangeToken(ctx, te, "subject-token", oidc.AccessTokenType, "", "", nil, nil, nil, "")
+		in.call = func(int) (string, error) {
+			return sent(func(c context.Context) {
+				_, _ = tokenexchange.ExchangeToken(c, te, "subject-token", oidc.AccessTokenType, "", "", nil, nil, nil, "")
+			})
+		}
 	case "rs.Introspect":
-		rsv, err := rs.NewResourceServerJWTProfile(ctx, issuer, clientID, kid, pemKey, rs.WithClient(hc))
+		rsv, err := rs.NewResourceServerJWTProfile(ctx, issuer, cd.client, cd.kid, cd.key.pem, rs.WithClient(hc))
 		if err != nil {
-			return "", err
+			return nil, err
 		}
-		_, _ = rs.Introspect[*oidc.IntrospectionResponse](ctx, rsv, "some-token")
+		in.call = func(int) (string, error) {
+			return sent(func(c context.Context) { _, _ = rs.Introspect[*oidc.IntrospectionResponse](c, rsv, "some-token") })
+		}
 	case "rp.DeviceAuthorization", "rp.CodeExchangeHandler":
-		party, err := rp.NewRelyingPartyOIDC(ctx, issuer, clientID, "", "https://rp.example.com/cb", []string{"openid"},
-			rp.WithJWTProfile(rp.SignerFromKeyAndKeyID(pemKey, kid)), rp.WithHTTPClient(hc))
+		party, err := rp.NewRelyingPartyOIDC(ctx, issuer, cd.client, "", "https://rp.example.com/cb", []string{"openid"},
+			rp.WithJWTProfile(rp.SignerFromKeyAndKeyID(cd.key.pem, cd.kid)), rp.WithHTTPClient(hc))
 		if err != nil {
-			return "", err
+			return nil, err
 		}
 		if which == "rp.DeviceAuthorization" {
-			_, _ = rp.DeviceAuthorization(ctx, []string{"openid"}, party, nil)
+			in.call = func(int) (string, error) {
+				return sent(func(c context.Context) { _, _ = rp.DeviceAuthorization(c, []string{"openid"}, party, nil) })
+			}
 		} else {
 			h := rp.CodeExchangeHandler(func(http.ResponseWriter, *http.Request, *oidc.Tokens[*oidc.IDTokenClaims], string, rp.RelyingParty) {}, party)
-			req := httptest.NewRequest(http.MethodGet, "https://rp.example.com/cb?code=some-code&state=st", nil).WithContext(ctx)
-			h(httptest.NewRecorder(), req)
+			in.call = func(n int) (string, error) {
+				return sent(func(c context.Context) {
+					req := httptest.NewRequest(http.MethodGet, fmt.Sprintf("https://rp.example.com/cb?code=some-code-%d&state=st", n), nil).WithContext(c)
+					h(httptest.NewRecorder(), req)
+				})
+			}
 		}
+	default:
+		return nil, errors.New("unknown helper path")
 	}
-	return ct.assertion()
+	return in, nil
 }
 
-func helperCase(r drv.Rand, w *emit.Writer, wd world, bump func(string)) {
-	entry := drv.Pick(r, entries)
-	issuer := drv.Pick(r, issuers)
-	vs := drv.Pick(r, []vset{{time.Hour, time.Second}, {time.Hour, time.Second}, {0, 0}, {2 * time.Hour, time.Second}, {time.Hour, 0}})
-	// (client, registration) pairs; the last two are not registered (unknown key / wrong client)
-	type cand struct {
-		client, kid string
-		key         *keyT
+// next performs one more call on the instance; [h0, h1] brackets that call.
+func (in *helperInst) next() (tok string, h0, h1 int64, err error) {
+	start := time.Now()
+	h0 = start.UnixNano()
+	p := drv.Catch(func() { tok, err = in.call(in.calls) })
+	h1 = time.Now().UnixNano()
+	if p != "" {
+		err = errors.New("helper panicked: " + p)
 	}
-	cands := []cand{{"c-alpha", "a1", wd.keys[0]}, {"c-alpha", "a2", wd.keys[3]}, {"c-beta", "b1", wd.keys[1]}, {"c-beta", "a1", wd.keys[4]},
-		{"c-gamma", "g1", wd.keys[6]}, {"c-gamma", "g2", wd.keys[7]}, {"c-alpha", "a1", wd.keys[2]}, {"c-beta", "a2", wd.keys[3]}}
-	cd := drv.Pick(r, cands)
-	entryTerm := entry
-	router := r.Chance(4, 10)
-	if router {
-		entry = "ERouter"
-		rcall = pickRouterCall(r, cd.client)
-		entryTerm = rcall.term()
-		issuer, vs = "https://"+rcall.host, vset{time.Hour, time.Second}
+	if in.calls == 0 {
+		in.first = start
 	}
-	which := drv.Pick(r, helperPaths)
-	aud := []string{issuer}
-	if r.Chance(1, 5) {
-		aud = []string{"https://other.example.com", issuer}
-	}
-	var tok string
-	var err error
-	p := drv.Catch(func() {
-		if which == "SignedJWTProfileAssertion" {
-			var s jose.Signer
-			s, err = client.NewSignerFromPrivateKeyByte(cd.key.pem, cd.kid)
-			if err == nil {
-				tok, err = client.SignedJWTProfileAssertion(cd.client, aud, time.Hour, s)
-			}
-		} else if which == "GenerateJWTProfileToken" {
-			tok, err = oidc.GenerateJWTProfileToken(oidc.NewJWTProfileAssertion(cd.client, cd.kid, aud, cd.key.pem))
-		} else {
-			tok, err = sentAssertion(which, issuer, cd.client, cd.kid, cd.key.pem)
+	in.calls++
+	return
+}
+
+func isRouterIssuer(issuer string) (host string, ok bool) {
+	for _, h := range routerHosts {
+		if issuer == "https://"+h {
+			return h, true
 		}
-	})
-	if p != "" || err != nil { // the helper produced no assertion (e.g. P-384 key: ES256 does not fit)
+	}
+	return "", false
+}
+
+// verifier configurations helper-built assertions are presented to: the provider default,
+// no max age, and max ages of a few seconds (an assertion must be as young as its call)
+var helperVsets = []vset{{time.Hour, time.Second}, {time.Hour, time.Second}, {0, 0}, {2 * time.Hour, time.Second}, {time.Hour, 0},
+	{2 * time.Second, time.Second}, {2 * time.Second, 0}, {3 * time.Second, time.Second}, {5 * time.Second, 0}, {time.Minute, time.Second},
+	{30 * time.Minute, 5 * time.Second}}
+
+var shortVsets = []vset{{2 * time.Second, time.Second}, {2 * time.Second, 0}, {2 * time.Second, time.Second}, {3 * time.Second, 0}}
+
+const helperPause = 2600 * time.Millisecond
+
+func helperCands(wd world) []cand {
+	// (client, registration) pairs; the last two are not registered (unknown key / wrong client)
+	return []cand{{"c-alpha", "a1", wd.keys[0]}, {"c-alpha", "a2", wd.keys[3]}, {"c-beta", "b1", wd.keys[1]}, {"c-beta", "a1", wd.keys[4]},
+		{"c-gamma", "g1", wd.keys[6]}, {"c-gamma", "g2", wd.keys[7]}, {"c-alpha", "a1", wd.keys[2]}, {"c-beta", "a2", wd.keys[3]}}
+}
+
+// helperCase: ONE call on a long-lived helper instance (a new one, or - half of the time -
+// one that already served earlier cases of this run); the assertion that call put on the
+// wire is presented to the provider side.
+func helperCase(r drv.Rand, w *emit.Writer, wd world, bump func(string)) {
+	var in *helperInst
+	if len(helperPool) > 0 && r.Bool() {
+		in = drv.Pick(r, helperPool)
+	} else {
+		issuer := drv.Pick(r, issuers)
+		if r.Chance(4, 10) {
+			issuer = "https://" + drv.Pick(r, routerHosts)
+		}
+		aud := []string{issuer}
+		if r.Chance(1, 5) {
+			aud = []string{"https://other.example.com", issuer}
+		}
+		var err error
+		if helperCreated == 0 {
+			helperCreated = r.IntN(len(helperPaths))
+		}
+		which, cd := helperPaths[helperCreated%len(helperPaths)], drv.Pick(r, helperCands(wd)) // every path gets its instances
+		helperCreated++
+		p := drv.Catch(func() { in, err = newHelperInst(which, issuer, aud, cd) })
+		if p != "" || err != nil || in == nil {
+			bump("helper_sign_failed")
+			return
+		}
+	}
+	fresh := in.calls == 0
+	tok, h0, h1, err := in.next()
+	if err != nil { // the helper produced no assertion (e.g. P-384 key: ES256 does not fit)
 		bump("helper_sign_failed")
 		return
+	}
+	if fresh {
+		helperPool = append(helperPool, in)
+	}
+	entry := drv.Pick(r, entries)
+	vs := drv.Pick(r, helperVsets)
+	var rc *routerCall
+	if host, ok := isRouterIssuer(in.issuer); ok && r.Chance(3, 4) {
+		c := pickRouterCall(r, in.cd.client)
+		c.host = host
+		rc = &c
+	}
+	presentHelper(r, w, wd, bump, in, tok, h0, h1, entry, vs, rc, false)
+}
+
+// helperSweep: at the end of the run every pooled instance is called once more, at least
+// helperPause after its first call, and what it sends THEN goes to verifiers that allow
+// an issued-at age of 2-3 s only (and, for the router issuers, to the real routers).
+func helperSweep(r drv.Rand, w *emit.Writer, wd world, bump func(string)) {
+	var last time.Time
+	for _, in := range helperPool {
+		if in.first.After(last) {
+			last = in.first
+		}
+	}
+	if d := time.Until(last.Add(helperPause)); d > 0 && len(helperPool) > 0 {
+		time.Sleep(d)
+	}
+	for _, in := range helperPool {
+		tok, h0, h1, err := in.next()
+		if err != nil {
+			bump("helper_sign_failed")
+			continue
+		}
+		presentHelper(r, w, wd, bump, in, tok, h0, h1, drv.Pick(r, entries), drv.Pick(r, shortVsets), nil, true)
+		if host, ok := isRouterIssuer(in.issuer); ok && r.Bool() {
+			c := pickRouterCall(r, in.cd.client)
+			c.host = host
+			presentHelper(r, w, wd, bump, in, tok, h0, h1, "ERouter", vset{time.Hour, time.Second}, &c, true)
+		}
+	}
+}
+
+func presentHelper(r drv.Rand, w *emit.Writer, wd world, bump func(string), in *helperInst, tok string, h0, h1 int64,
+	entry string, vs vset, rc *routerCall, afterPause bool) {
+	cd, issuer := in.cd, in.issuer
+	entryTerm := entry
+	router := rc != nil
+	if router {
+		entry = "ERouter"
+		rcall = *rc
+		entryTerm = rcall.term()
+		vs = vset{time.Hour, time.Second}
 	}
 	// independent decode of what the helper produced
 	parts := strings.Split(tok, ".")
@@ -1087,8 +1487,8 @@ func helperCase(r drv.Rand, w *emit.Writer, wd world, bump func(string)) {
 		Iat int64    `json:"iat"`
 		Exp int64    `json:"exp"`
 	}
-	if len(parts) != 3 || json.Unmarshal(must(base64.RawURLEncoding.DecodeString(parts[0])), &hdr) != nil ||
-		json.Unmarshal(must(base64.RawURLEncoding.DecodeString(parts[1])), &pl) != nil {
+	dec := func(s string) []byte { b, _ := base64.RawURLEncoding.DecodeString(s); return b }
+	if len(parts) != 3 || json.Unmarshal(dec(parts[0]), &hdr) != nil || json.Unmarshal(dec(parts[1]), &pl) != nil {
 		bump("helper_sign_failed")
 		return
 	}
@@ -1104,11 +1504,22 @@ func helperCase(r drv.Rand, w *emit.Writer, wd world, bump func(string)) {
 		bump("clock_ambiguous")
 		return
 	}
-	in := emit.Ctor("IAssert", entryTerm, "true", vTerm(issuer, vs, false, keySetCtor), regsTerm(wd.regs), clientsTerm(wd.clients), emit.Z(t0), emit.Z(t1),
+	var rtags []string
+	if router {
+		rtags = []string{fmt.Sprintf("router_legacy=%v", rcall.legacy), "router_ep=" + rcall.ep, "client_id_param=" + cidClass(rcall.cid, cd.client), "owner=" + cidClass(rcall.owner, cd.client)}
+	}
+	nth := "3+"
+	if in.calls <= 2 {
+		nth = fmt.Sprint(in.calls)
+	}
+	hterm := emit.Some(emit.Ctor("mkH", emit.Z(h0), emit.Z(h1), emit.Z(3600)))
+	inp := emit.Ctor("IAssert", entryTerm, hterm, vTerm(issuer, vs, false, keySetCtor), regsTerm(wd.regs), clientsTerm(wd.clients), emit.Z(t0), emit.Z(t1),
 		emit.Ctor("TJws", d.term(), c.term()))
-	w.Add(emit.Case{Input: in, Observed: obs,
-		Tags: []string{"kind=assertion", "entry=" + entry, "helper=1", "helperfn=" + which, "keytype=" + cd.key.kind, fmt.Sprintf("ctor_keyset=%v", keySetCtor)},
-		Human: map[string]any{"entry": entryTerm, "token": tok, "issuer": issuer, "helper": which, "client": cd.client, "kid": cd.kid, "key": cd.key.id,
+	w.Add(emit.Case{Input: inp, Observed: obs,
+		Tags: append([]string{"kind=assertion", "entry=" + entry, "helper=1", "helperfn=" + in.path, "keytype=" + cd.key.kind, fmt.Sprintf("ctor_keyset=%v", keySetCtor),
+			"helper_call=" + nth, fmt.Sprintf("after_pause=%v", afterPause), fmt.Sprintf("short_max_age=%v", vs.maxAge != 0 && vs.maxAge < time.Minute)}, rtags...),
+		Human: map[string]any{"entry": entryTerm, "token": tok, "issuer": issuer, "helper": in.path, "client": cd.client, "kid": cd.kid, "key": cd.key.id,
+			"call_number_on_instance": in.calls, "since_first_call": time.Duration(h0 - in.first.UnixNano()).String(), "max_age": vs.maxAge.String(), "offset": vs.offset.String(),
 			"claims": fmt.Sprintf("%+v", c), "sig": fmt.Sprintf("%+v", d)}})
 }
 
@@ -1286,7 +1697,7 @@ func requestCase(r drv.Rand, w *emit.Writer, wd world) {
 		nm = 1
 	}
 	for k := 0; k < nm; k++ {
-		m := drv.Pick(r, []string{"iss", "inner_client", "both_absent", "outer_client", "impersonate", "aud", "response_type", "kid", "alg", "signer", "signer", "tamper", "unregister", "malformed"})
+		m := drv.Pick(r, []string{"iss", "inner_client", "both_absent", "outer_client", "impersonate", "aud", "response_type", "kid", "alg", "signer", "signer", "tamper", "tamper", "unregister", "malformed"})
 		if near {
 			m = drv.Pick(r, []string{"near_aud", "near_aud", "near_aud", "near_iss", "near_inner_client", "near_outer_client", "near_response_type", "near_response_type", "near_kid", "near_impersonate", "near_impersonate"})
 		}
@@ -1317,6 +1728,9 @@ func requestCase(r drv.Rand, w *emit.Writer, wd world) {
 			plan.kid = nearMiss(r, own.kid)
 		case "near_impersonate": // c-beta2 (id extends c-beta) signs with its own key, or the reverse
 			a, b := "c-beta", "c-beta2"
+			if r.Chance(1, 3) {
+				a, b = "c-alpha", "C-ALPHA"
+			}
 			if r.Bool() {
 				a, b = b, a
 			}
@@ -1327,7 +1741,7 @@ func requestCase(r drv.Rand, w *emit.Writer, wd world) {
 				inner.clientID = b
 			}
 		case "iss":
-			iss = drv.Pick(r, []string{"c-beta", "", "c-unknown", "c-alpha"})
+			iss = drv.Pick(r, []string{"c-beta", "", "c-unknown", "c-alpha", "null", "undefined", "0", "true", "{}"})
 		case "inner_client":
 			inner.clientID = drv.Pick(r, []string{"c-beta", "", "c-alpha"})
 			if r.Bool() {
@@ -1348,14 +1762,14 @@ func requestCase(r drv.Rand, w *emit.Writer, wd world) {
 		case "outer_client": // another client presents this client's object
 			outer.clientID = drv.Pick(r, []string{"c-beta", "c-alpha", "c-gamma", ""})
 		case "aud":
-			aud = drv.Pick(r, [][]string{{}, {"https://other.example.com"}, {"https://other.example.com", issuer}, {issuer + "/"}, {named}})
+			aud = drv.Pick(r, [][]string{{}, {"https://other.example.com"}, {"https://other.example.com", issuer}, {issuer + "/"}, {named}, {"null"}, {"*"}, {"true"}, {""}})
 		case "response_type":
 			inner.responseType = drv.Pick(r, []string{"id_token", "code id_token", "token"})
 			if r.Chance(1, 3) {
 				outer.responseType = inner.responseType
 			}
 		case "kid":
-			plan.kid = drv.Pick(r, []string{"a1", "b1", "a2", "g1", "", "nope"})
+			plan.kid = drv.Pick(r, []string{"a1", "b1", "a2", "g1", "", "nope", "null", "undefined", "0", "false", "[]"})
 		case "alg":
 			if plan.key.kind == "rsa" {
 				plan.alg = drv.Pick(r, []jose.SignatureAlgorithm{jose.RS384, jose.RS512, jose.PS384, jose.PS256})
@@ -1401,6 +1815,7 @@ func requestCase(r drv.Rand, w *emit.Writer, wd world) {
 	if err != nil {
 		return
 	}
+	primeTok := lastUntampered
 	roTerm := emit.Ctor("mkRO", emit.Str(iss), emit.StrList(aud), inner.term())
 	var tokTerm string
 	switch plan.kind {
@@ -1414,6 +1829,13 @@ func requestCase(r drv.Rand, w *emit.Writer, wd world) {
 		tok, tokTerm = malformed(r, "json", tok), "TBadJson"
 	}
 	st := &store{regs: regs, clients: wd.clients}
+	primed := plan.kind == "jws" && (plan.sigMut == "payload" || plan.sigMut == "sigflip" || plan.sigMut == "hdralg") && r.Chance(2, 3)
+	tags = append(tags, fmt.Sprintf("primed=%v", primed))
+	if primed { // the object as it was signed goes first (same signature bytes)
+		req := outer.toLib()
+		req.RequestParam = primeTok
+		drv.Catch(func() { _ = op.ParseRequestObject(context.Background(), req, st, issuer) })
+	}
 	var obs string
 	if !via {
 		req := outer.toLib()
